@@ -9,7 +9,8 @@ Goroutines: any number of callers in `Conn.Write` / `RoundTrip` (one per request
 unbounded family indexed by `Nat`.
 
 What a resolution carries is abstracted to three classes (`Val`): success, an error `retryable`
-accepts (ErrConnectionClosed, ErrNotAvailableStreams), any other error.
+accepts (ErrConnectionClosed, ErrNotAvailableStreams), any other error. A written request is resolved with a
+retryable error in one place only: `afterGoAway`, for a stream the server's GOAWAY disclaimed (`refuse`).
 -/
 namespace H2.Client.Inter
 
@@ -27,6 +28,7 @@ structure Req where
   inQ : Bool := false             -- sitting in `c.in`
   inTable : Bool := false         -- in `reqQueued`
   written : Bool := false         -- ghost: its HEADERS went on the wire
+  disclaimed : Bool := false      -- ghost: the server's GOAWAY left its stream out (above last-stream-id)
   errBuf : Option Val := none     -- content of `ctx.Err`
   ever : Bool := false            -- ghost: some resolve took effect
   result : Option Val := none     -- ghost: what the caller read
@@ -54,7 +56,7 @@ inductive Act
   | wlTakeWrite (i : Nat) | wlTakeReject (i : Nat) | wlTakeSkip (i : Nat) | wlWriteFail (i : Nat)
   | wlBodyFail (i : Nat) | wlFail
   | wlSeeDone | wlSetErr | wlClose | wlTakeAll | wlDrainOne (i : Nat) | wlDrainEnd
-  | close | rdSetErr | finish (i : Nat) (v : Val) | timer (i : Nat)
+  | close | rdSetErr | finish (i : Nat) (v : Val) | refuse (i : Nat) (v : Val) | timer (i : Nat)
 
 /-- `recheckVal s`: what `Write`'s second select resolves with. After fix F42 it is never an error that
 reads as "nothing was sent". -/
@@ -111,6 +113,10 @@ inductive Step (recheckVal : S → Val) : S → Act → S → Prop
   /- read loop `finish` (a response, RST_STREAM or a malformed block ends the stream) -/
   | finish (s i v) : (s.r i).inTable = true → v ≠ .retryable →
       Step recheckVal s (.finish i v) (upd s i fun q => { res q v with inTable := false })
+  /- read loop `afterGoAway`: a request still in the table on a stream above the last-stream-id of the server's GOAWAY
+     is finished at once, with the retryable error or (body from a reader) a stream error -/
+  | refuse (s i v) : (s.r i).inTable = true → v ≠ .ok →
+      Step recheckVal s (.refuse i v) (upd s i fun q => { res q v with inTable := false, disclaimed := true })
   /- `fireTimeout`: resolve, then `cancel` drops the stream -/
   | timer (s i) : Step recheckVal s (.timer i) (upd s i fun q => { res q .fatal with inTable := false })
 
